@@ -253,9 +253,12 @@ def _poll_child(seed, n_cases):
         p0 = make(kind, a, b)
         exp = [strict(iso.Pattern.value(next(p0))) for _ in range(n)]
         p1 = make(kind, a, b)
-        with contextlib.redirect_stdout(io.StringIO()):
-            p1.poll()
-            got = [strict(iso.Pattern.value(next(p1))) for _ in range(n)]
+        try:
+            with contextlib.redirect_stdout(io.StringIO()):
+                p1.poll()
+                got = [strict(iso.Pattern.value(next(p1))) for _ in range(n)]
+        except Exception as ex:
+            got = "raised %s" % type(ex).__name__
         if got != exp:
             bad.append({"kind": kind, "a": a, "b": b, "n": n, "polled": got, "unpolled": exp})
     return n_cases, bad
